@@ -64,6 +64,8 @@ Init0(props) ==
     runNo   |-> 0,           \* number of run() calls so far
     rstack  |-> << >>,       \* saved state of outer run() calls (run() re-entered from an idle item)
     applied |-> TRUE,        \* has this run's instant taken effect yet? (it does after the idle item)
+    oldgen  |-> {},          \* actors of an earlier Stakker of this case (see "renewed")
+    boomed  |-> FALSE,       \* a panic made by user code inside run() was caught by the caller
     panicked|-> FALSE
   ]
 
@@ -379,7 +381,7 @@ ApplyX(st00, e) ==
                               !.lastq = IF top THEN "main" ELSE @,
                               !.phase = IF top THEN @ + 1 ELSE @]
        IN R(mark(s1), r.bad \cup twice \cup dead \cup gate \cup flushBad \cup NowBad(st, e, "main"))
-  ELSE IF it.q = "direct" THEN
+  ELSE IF it.q \in {"direct", "query"} THEN
        R(mark(st), twice \cup dead \cup gate \cup NowBad(st, e, "main"))
   ELSE R(mark(st), dead \cup B(it.q = "void", "C01", "closure submitted after Stakker drop was executed"))
 
@@ -442,8 +444,9 @@ ApplyDrop1(st, e) ==
              \cup B(f.found /\ ~f.ok, "C02", "call discarded before reaching the front of the queue")
              \cup B(~legit, "C02", "call discarded although its target could have executed it"))
      ELSE IF isCall THEN
-        \* direct apply on a Zombie: discarded on the spot
-        R(s1, twice \cup early \cup B(tgt # "zombie", "C02", "call discarded although its target could have executed it"))
+        \* direct apply on a Zombie / query on anything but a Ready actor: discarded on the spot
+        R(s1, twice \cup early \cup B(IF it.q = "query" THEN tgt = "ready" ELSE tgt # "zombie",
+                                      "C02", "call discarded although its target could have executed it"))
      ELSE
         R([s1 EXCEPT !.mainQ = SelectSeq(@, LAMBDA en : ~(en.k = "item" /\ en.id = id)),
                      !.lazyQ = RemoveId(@, id), !.idleQ = RemoveId(@, id)],
@@ -456,7 +459,7 @@ ApplyDrop1(st, e) ==
 ApplyDrop(st, e) ==
   LET id == e.item IN
   IF ~e.ran /\ Has(st.items, id) /\ st.alive = "live" /\ st.items[id].aid # 0
-     /\ ~st.items[id].prep /\ AState(st, st.items[id].aid) = "prep"
+     /\ ~st.items[id].prep /\ st.items[id].q # "query" /\ AState(st, st.items[id].aid) = "prep"
      /\ \E i \in 1..Len(st.mainQ) : st.mainQ[i].k = "term" /\ st.mainQ[i].aid = st.items[id].aid
   THEN LET r0 == ImplicitDropTerm(st, st.items[id].aid)
            r1 == ApplyDrop1(r0.st, e)
@@ -816,7 +819,34 @@ ApplyEnd(st) ==
                 "C16", "closure captures / message never dropped")
   IN R(st, rbad \cup abad \cup ibad \cup B(st.expcb # << >>, "C05", "Ret handler not invoked at the moment of ret()/drop"))
 
-Apply(st, e) ==
+\* After a caught user panic the run was abandoned half-way: nothing is promised about
+\* what still runs, but no value may be dropped twice and no closure may run twice.
+ApplyBoomed(st, e) ==
+  CASE e.e = "case" -> R(Init0({e.props[i] : i \in 1..Len(e.props)}), {})
+    [] e.e = "drop" ->
+         R([st EXCEPT !.tokdrop = @ \cup {e.item}],
+           B(Has(st.items, e.item) /\ e.item \in st.tokdrop, "C16", "value handed to the runtime dropped twice (after a caught panic)"))
+    [] e.e = "vdrop" ->
+         IF ~Has(st.actors, e.aid) THEN R(st, {}) ELSE
+         R([st EXCEPT !.actors[e.aid].vdropped = TRUE],
+           B(st.actors[e.aid].vdropped, "C16", "actor value dropped twice (after a caught panic)"))
+    [] e.e = "x" ->
+         IF ~Has(st.items, e.item) THEN R(st, {}) ELSE
+         R([st EXCEPT !.items[e.item].s = "x"],
+           B(st.items[e.item].s # "p", "C16", "closure executed twice / after being dropped (after a caught panic)"))
+    [] e.e = "corrupt" -> R(st, {<<"C16", "captured data corrupted or misaligned">>})
+    \* a Ret dropped while the panic unwinds (or afterwards) still reports None, there and then
+    [] e.e = "retdrop" -> ApplyRetDrop(st, e)
+    [] e.e = "retcb" -> ApplyRetCb(st, e)
+    [] e.e = "end" -> R(st, IF st.panicked THEN {} ELSE
+                            B(st.expcb # << >>, "C05", "Ret dropped by an unwinding panic did not report None"))
+    [] e.e = "panic" ->
+         R([st EXCEPT !.panicked = TRUE],
+           IF e.harness THEN {<<"HARNESS", e.msg>>} ELSE {<<p, "panic in " \o e.during \o ": " \o e.msg>> : p \in st.props})
+    [] e.e = "crash" -> R([st EXCEPT !.panicked = TRUE], {<<p, "process aborted: " \o e.msg>> : p \in st.props})
+    [] OTHER -> R(st, {})
+
+Apply1(st, e) ==
   CASE e.e = "case" -> R(Init0({e.props[i] : i \in 1..Len(e.props)}), {})
     [] e.e = "new" -> R([st EXCEPT !.alive = "live"], {})
     [] e.e = "sub" -> ApplySub(st, e)
@@ -832,6 +862,14 @@ Apply(st, e) ==
          IN IF AState(st, e.aid) = "prep"
             THEN R([s1 EXCEPT !.actors[e.aid].held = Append(@, Entry("call", e.item, e.aid, FALSE, 0))], {})
             ELSE R(s1, {})
+    [] e.e = "query" ->
+         \* Actor::query: runs now (Ready) or is discarded (Prep, Zombie); never held
+         R([st EXCEPT !.items = Put(@, e.item, [q |-> "query", s |-> "p", aid |-> e.aid, prep |-> FALSE, tid |-> 0, hr |-> {}])], {})
+    [] e.e = "querye" ->
+         LET ran == Has(st.items, e.item) /\ st.items[e.item].s = "r" IN
+         R(st, B(e.some # ran, "C02", "query() result disagrees with whether the method was executed")
+               \cup B(~e.okval, "C02", "query() returned a value the method did not produce")
+               \cup B(Has(st.items, e.item) /\ st.items[e.item].s = "p", "C16", "query closure neither run nor released when query() returned"))
     [] e.e = "tadd" -> ApplyTAdd(st, e)
     [] e.e = "tmac" -> ApplyTMac(st, e)
     [] e.e = "tupd" -> ApplyTUpd(st, e)
@@ -848,6 +886,17 @@ Apply(st, e) ==
          R([st EXCEPT !.draining = FALSE],
            B(st.drainB < 0, "C09", "follow-next_expiry loop needed more iterations than the bound")
            \cup B(Unfired(st) # {}, "C09", "follow-next_expiry loop did not fire every pending timer"))
+    [] e.e = "boom" -> R([st EXCEPT !.boomed = TRUE], {})
+    [] e.e = "renewed" ->
+         \* a new Stakker on the same thread, after the previous one was dropped and every handle
+         \* released: Stakker::new released what was stranded; nothing of it is pending any more
+         LET fresh == Init0(st.props)
+         IN R([fresh EXCEPT !.alive = "live", !.items = st.items, !.tokdrop = st.tokdrop,
+                            !.actors = [a \in DOMAIN st.actors |-> [st.actors[a] EXCEPT !.held = << >>]],
+                            !.rets = st.rets, !.fwds = st.fwds, !.oldgen = DOMAIN st.actors],
+              \* (whether what was deferred after the drop has been released by now depends on the Deferrer
+              \*  implementation: documented exclusion; what matters is that none of it ever runs)
+              {})
     [] e.e = "startinst" -> R(st, B(e.t # <<0, 0>>, "C15", "start_instant() changed"))
     [] e.e = "corrupt" -> R(st, {<<"C01", "captured data corrupted or misaligned">>, <<"C16", "captured data corrupted or misaligned">>, <<"C17", "captured data corrupted or misaligned">>})
     [] e.e = "reenter" -> R(st, {<<"C03", "actor method re-entered">>})
@@ -860,8 +909,16 @@ Apply(st, e) ==
     [] e.e = "kille" -> ApplyKillEnd(st, e)
     [] e.e = "owndrop" -> ApplyOwnDrop(st, e)
     [] e.e = "ownclone" -> ApplyOwnClone(st, e)
-    [] e.e = "vdrop" -> ApplyVDrop(st, e)
-    [] e.e = "notify" -> ApplyNotify(st, e)
+    [] e.e = "vdrop" ->
+         IF e.aid \in st.oldgen /\ Has(st.actors, e.aid)
+         THEN R([st EXCEPT !.actors[e.aid].vdropped = TRUE], B(st.actors[e.aid].vdropped, "C16", "actor value dropped twice"))
+         ELSE ApplyVDrop(st, e)
+    [] e.e = "notify" ->
+         IF e.aid \in st.oldgen /\ e.cause # "none" /\ st.alive = "live" /\ Has(st.actors, e.aid) /\ ~st.actors[e.aid].notified
+         THEN R([st EXCEPT !.actors[e.aid].notified = TRUE],
+                {<<"C18", "termination deferred to a dropped Stakker was executed by the next Stakker">>,
+                 <<"C01", "closure submitted after Stakker drop was executed">>})
+         ELSE ApplyNotify(st, e)
     [] e.e = "pslabdrop" ->
          IF ~Has(st.actors, e.aid) THEN R(st, {}) ELSE
          LET kids == IF st.alive = "live" THEN st.actors[e.aid].slab ELSE {}
@@ -889,7 +946,7 @@ Apply(st, e) ==
          \* happened in (run() can execute anything: charged to the case's properties)
          LET timerOps == {"tadd", "after", "tmac", "tupd", "tdel", "tact", "nexp", "nwait", "nwaitmax"}
              queueOps == {"defer", "lazy", "idle"}
-             actorOps == {"acreate", "call", "apply", "kill", "owndrop", "ownclone", "ownanon", "keepown", "unkeepown",
+             actorOps == {"acreate", "call", "apply", "query", "kill", "owndrop", "ownclone", "ownanon", "keepown", "unkeepown",
                           "mkret", "ret", "retdrop", "keepret", "mkfwd", "fwd", "refstorm", "stop", "fail"}
              who == IF e.during \in timerOps THEN {"C08"}
                     ELSE IF e.during \in queueOps THEN st.props \cap {"C01", "C06", "C16", "C17", "C18"}
@@ -911,5 +968,7 @@ Apply(st, e) ==
                     \cup B(st.expcb # << >>, "C05", "Ret handler not invoked at the moment of ret()/drop"))
          ELSE R(st, {})
     [] OTHER -> R(st, {})     \* keepown, keepret, refstorm, dh, dhe, nop, endcase, ...
+
+Apply(st, e) == IF st.boomed THEN ApplyBoomed(st, e) ELSE Apply1(st, e)
 
 =============================================================================
